@@ -1,6 +1,6 @@
 (* C05 - property theorems only. *)
 From Coq Require Import QArith Qcanon Reals List.
-Require Import PV.Num PV.Fit PV.FitTransfer.
+Require Import PV.Num PV.Fit PV.FitTransfer PV.gen.FitGen PV.TieFit.
 Import ListNotations.
 Local Open Scope R_scope.
 
@@ -132,6 +132,97 @@ Theorem C05_closed_form_counting : forall n s b lo hi,
   lo <= muhat <= hi /\ forall mu, lo <= mu <= hi -> counting_nll n s b muhat <= counting_nll n s b mu.
 Proof. exact closed_form_counting. Qed.
 
+(* ---- tie to the source: the definitions of coq/gen/FitGen.v, translated on every run from pyhf/optimize/common.py, mixins.py,
+   opt_numpy.py, opt_jax.py, opt_pytorch.py, opt_tflow.py and infer/mle.py, are the hand model of FitWrap.v ---- *)
+Theorem C05_source_is_model_make_stitch_pars : forall (A : Type) (zero : A) tv fv,
+  gen_make_stitch_pars A zero tv fv = make_stitch_pars A zero (pair_opt A tv fv).
+Proof. exact tie_make_stitch_pars. Qed.
+
+(* shim: fixed_idx / fixed_values / variable_idx, the stripped x0 / bounds / fixed_vals, the stitch closure; `fixed_vals or []` *)
+Theorem C05_source_is_model_shim : forall (A : Type) (zero : A) npars init bounds ofv ds,
+  gen_shim A zero npars init bounds ofv ds = shim A zero npars init bounds (opt_list ofv) ds.
+Proof. exact tie_shim. Qed.
+Theorem C05_source_is_model_shim_jit_pieces : forall (A : Type) (zero : A) npars (ofv : option (list (nat * A))),
+  gen_shim_fixed_idx A zero npars ofv = map fst (opt_list ofv) /\
+  gen_shim_variable_idx A zero npars ofv = variable_idx npars (map fst (opt_list ofv)) /\
+  gen_shim_fixed_values A zero npars ofv = map snd (opt_list ofv).
+Proof. exact tie_shim_pieces. Qed.
+
+(* the function handed to the optimiser is objective o stitch_pars: numpy (refused with do_grad), pytorch / tensorflow without
+   gradient, jax (the jit-compiled objective run on the pieces shim hands over) *)
+Theorem C05_source_is_model_wrap_objective_numpy : forall (A F : Type) objective sp do_grad,
+  gen_wrap_objective_numpy A F objective sp do_grad = if do_grad then None else Some (wrapped A F objective sp).
+Proof. exact tie_wrap_numpy. Qed.
+Theorem C05_source_is_model_wrap_objective_pytorch_nograd : forall (A F : Type) objective sp,
+  gen_wrap_objective_pytorch_nograd A F objective sp = Some (wrapped A F objective sp).
+Proof. exact tie_wrap_pytorch_nograd. Qed.
+Theorem C05_source_is_model_wrap_objective_tflow_nograd : forall (A F : Type) objective sp,
+  gen_wrap_objective_tflow_nograd A F objective sp = Some (wrapped A F objective sp).
+Proof. exact tie_wrap_tflow_nograd. Qed.
+Theorem C05_source_is_model_final_objective_jax : forall (A : Type) (zero : A) (F : Type) objective npars init bounds ofv ds pars,
+  gen_final_objective_jax A zero F objective pars (gen_shim_fixed_values A zero npars ofv) (gen_shim_fixed_idx A zero npars ofv)
+                          (gen_shim_variable_idx A zero npars ofv) ds
+  = wrapped A F objective (snd (shim A zero npars init bounds (opt_list ofv) ds)) pars.
+Proof. exact tie_final_objective_jax. Qed.
+
+(* OptimizerMixin.minimize with _internal_minimize / _internal_postprocess inlined, for every combination of return flags translated:
+   failed minimisation, stitching of the fitted values, zeroed uncertainties of fixed parameters, assembly of the returned tuple *)
+Theorem C05_source_is_model_minimize : forall (A : Type) (zero : A) (F : Type) (optimiser : bool -> (list A -> F) -> kwargs A -> optres A F)
+    objective npars init bounds ofv dg ds,
+  let m := minimize A zero F optimiser objective npars init bounds (opt_list ofv) dg ds in
+  let nocorr := fun _ : optres A F => @None (list (list A)) in
+  gen_minimize_pars A zero F optimiser (wrapped A F) nocorr objective npars init bounds ofv dg ds = lift (r_x A F) m /\
+  gen_minimize_val A zero F optimiser (wrapped A F) nocorr objective npars init bounds ofv dg ds = lift (fun res => (r_x A F res, r_fun A F res)) m /\
+  gen_minimize_obj A zero F optimiser (wrapped A F) nocorr objective npars init bounds ofv dg ds = lift (fun res => (r_x A F res, (res, None))) m /\
+  gen_minimize_corr_val_obj A zero F optimiser (wrapped A F) nocorr objective npars init bounds ofv dg ds
+    = lift (fun res => (r_x A F res, None, r_fun A F res, (res, None))) m /\
+  gen_minimize_unc A zero F optimiser (wrapped A F) nocorr objective npars init bounds ofv dg ds = lift unc_view m.
+Proof. exact tie_minimize_all. Qed.
+
+(* ... and with correlations reported by the optimiser: rows and columns of the fixed parameters stitched in as zeros *)
+Theorem C05_source_is_model_minimize_correlations : forall (A : Type) (zero : A) (F : Type) (optimiser : bool -> (list A -> F) -> kwargs A -> optres A F)
+    corr_of objective npars init bounds ofv dg ds,
+  gen_minimize_corr_val_obj A zero F optimiser (wrapped A F) corr_of objective npars init bounds ofv dg ds
+  = minimize_corr A zero F optimiser corr_of objective npars init bounds (opt_list ofv) dg ds.
+Proof. exact tie_minimize_with_corr. Qed.
+
+(* mle.fit: defaults (`x or pdf.config.suggested_x()`), refusal of a starting point outside its bounds (with its index), fixed_vals from the mask *)
+Theorem C05_source_is_model_fit : forall (A : Type) (zero : A) (F : Type) (leb : A -> A -> bool) (optimiser : bool -> (list A -> F) -> kwargs A -> optres A F)
+    objective npars si sb sm oi ob om dg ds,
+  let m := fit A zero F leb optimiser objective npars (por oi si) (por ob sb) (por om sm) dg ds in
+  let nocorr := fun _ : optres A F => @None (list (list A)) in
+  gen_fit_pars A zero F leb optimiser (wrapped A F) nocorr objective npars si sb sm oi ob om dg ds = lift (r_x A F) m /\
+  gen_fit_val A zero F leb optimiser (wrapped A F) nocorr objective npars si sb sm oi ob om dg ds = lift (fun res => (r_x A F res, r_fun A F res)) m /\
+  gen_fit_obj A zero F leb optimiser (wrapped A F) nocorr objective npars si sb sm oi ob om dg ds = lift (fun res => (r_x A F res, (res, None))) m /\
+  gen_fit_corr_val_obj A zero F leb optimiser (wrapped A F) nocorr objective npars si sb sm oi ob om dg ds
+    = lift (fun res => (r_x A F res, None, r_fun A F res, (res, None))) m /\
+  gen_fit_unc A zero F leb optimiser (wrapped A F) nocorr objective npars si sb sm oi ob om dg ds = lift unc_view m.
+Proof. exact tie_fit_all. Qed.
+Theorem C05_source_is_model_fit_explicit : forall (A : Type) (zero : A) (F : Type) (leb : A -> A -> bool) (optimiser : bool -> (list A -> F) -> kwargs A -> optres A F)
+    objective npars si sb sm init bounds mask dg ds, init <> [] -> bounds <> [] -> mask <> [] ->
+  gen_fit_val A zero F leb optimiser (wrapped A F) (fun _ => None) objective npars si sb sm (Some init) (Some bounds) (Some mask) dg ds
+  = lift (fun res => (r_x A F res, r_fun A F res)) (fit A zero F leb optimiser objective npars init bounds mask dg ds).
+Proof. exact tie_fit_explicit. Qed.
+
+(* mle.fixed_poi_fit: refusal without POI; init_pars[poi_index] = poi_val and fixed_params[poi_index] = True on copies of the defaulted lists *)
+Theorem C05_source_is_model_fixed_poi_fit : forall (A : Type) (zero : A) (F : Type) (leb : A -> A -> bool) (optimiser : bool -> (list A -> F) -> kwargs A -> optres A F)
+    objective npars si sb sm poi_index poi_val oi ob om dg ds, por oi si <> [] -> por om sm <> [] ->
+  let m := fixed_poi_fit A zero F leb optimiser poi_index poi_val objective npars (por oi si) (por ob sb) (por om sm) dg ds in
+  let nocorr := fun _ : optres A F => @None (list (list A)) in
+  gen_fixed_poi_fit_pars A zero F leb optimiser (wrapped A F) nocorr objective npars si sb sm poi_index poi_val oi ob om dg ds = lift (r_x A F) m /\
+  gen_fixed_poi_fit_val A zero F leb optimiser (wrapped A F) nocorr objective npars si sb sm poi_index poi_val oi ob om dg ds
+    = lift (fun res => (r_x A F res, r_fun A F res)) m /\
+  gen_fixed_poi_fit_obj A zero F leb optimiser (wrapped A F) nocorr objective npars si sb sm poi_index poi_val oi ob om dg ds
+    = lift (fun res => (r_x A F res, (res, None))) m /\
+  gen_fixed_poi_fit_corr_val_obj A zero F leb optimiser (wrapped A F) nocorr objective npars si sb sm poi_index poi_val oi ob om dg ds
+    = lift (fun res => (r_x A F res, None, r_fun A F res, (res, None))) m /\
+  gen_fixed_poi_fit_unc A zero F leb optimiser (wrapped A F) nocorr objective npars si sb sm poi_index poi_val oi ob om dg ds = lift unc_view m.
+Proof. exact tie_fixed_poi_fit_all. Qed.
+Theorem C05_source_is_model_fixed_poi_fit_refuses : forall (A : Type) (zero : A) (F : Type) (leb : A -> A -> bool) optimiser wrap corr_of objective npars si sb sm poi_val oi ob om dg ds,
+  gen_fixed_poi_fit_val A zero F leb optimiser wrap corr_of objective npars si sb sm None poi_val oi ob om dg ds = inl (GE UnspecifiedPOI).
+Proof. exact tie_fixed_poi_fit_refuses. Qed.
+
+
 Print Assumptions C05_stitched_fixed_exact.
 Print Assumptions C05_fixed_poi_stitched_exact.
 Print Assumptions C05_nostitch_fixed_exact.
@@ -145,3 +236,16 @@ Print Assumptions C05_kkt_certificate_model.
 Print Assumptions C05_checked_certificate.
 Print Assumptions C05_nllterm_tangent.
 Print Assumptions C05_closed_form_counting.
+Print Assumptions C05_source_is_model_make_stitch_pars.
+Print Assumptions C05_source_is_model_shim.
+Print Assumptions C05_source_is_model_shim_jit_pieces.
+Print Assumptions C05_source_is_model_wrap_objective_numpy.
+Print Assumptions C05_source_is_model_wrap_objective_pytorch_nograd.
+Print Assumptions C05_source_is_model_wrap_objective_tflow_nograd.
+Print Assumptions C05_source_is_model_final_objective_jax.
+Print Assumptions C05_source_is_model_minimize.
+Print Assumptions C05_source_is_model_minimize_correlations.
+Print Assumptions C05_source_is_model_fit.
+Print Assumptions C05_source_is_model_fit_explicit.
+Print Assumptions C05_source_is_model_fixed_poi_fit.
+Print Assumptions C05_source_is_model_fixed_poi_fit_refuses.
